@@ -58,11 +58,17 @@ def dx_text(case):
     return "\n".join(out) + "\n"
 
 
-def pqr_text(natoms):
+def pqr_text(natoms, style=0):
+    """style: 0 plain, 1 TER/END at the end, 2 concatenated files (TER and END between the atoms, HETATM for the last)"""
     out = ["REMARK   1 generated"]
     for i in range(1, natoms + 1):
         ser, q, x, y, z = atom_fields(i)
-        out.append(f"ATOM  {ser:5d}  C   LIG     1    {x:8.3f}{y:8.3f}{z:8.3f} {q:7.4f} {1.7:6.4f}")
+        rec = "HETATM" if (style == 2 and i == natoms) else "ATOM  "
+        out.append(f"{rec}{ser:5d}  C   LIG     1    {x:8.3f}{y:8.3f}{z:8.3f} {q:7.4f} {1.7:6.4f}")
+        if style == 2 and i < natoms:
+            out += ["TER", "END", "REMARK   1 second file"]
+    if style >= 1:
+        out += ["TER", "END"]
     return "\n".join(out) + "\n"
 
 
@@ -118,7 +124,7 @@ def _work(args):
         s = c["shape"]
         n = s["nx"] * s["ny"] * s["nz"]
         open(base + ".dx", "w").write(dx_text(c))
-        open(base + ".pqr", "w").write(pqr_text(s["natoms"]))
+        open(base + ".pqr", "w").write(pqr_text(s["natoms"], style=(s["nx"] + s["ny"] + s["nz"] + s["row"]) % 3))
         try:
             if (n + s["natoms"]) % 4 == 0:
                 # the dx2cube console entry point (main.dx_to_cube) on the same files
